@@ -5,6 +5,7 @@ from ..env import Fxp, frac, parse_list, tok_list, codes_of, lims, ROUNDS, exc_t
 from .. import carriers as C
 from .. import gen as G
 from . import base
+from ..arith import hist_of
 from .c01 import exec_Q1, _line as q1_line, _pick_carrier
 
 TRUSTED_BASE = base.TRUSTED_BASE + ['`x & (2^n-1)` on a two\'s-complement integer is modelled as `x % 2^n`, `x | -2^n` (for 2^(n-1) <= x < 2^n) as `x - 2^n`']
@@ -26,16 +27,27 @@ def exec_W3(t):
     signed, n, f = s == 's', int(n), int(f)
     vals = [int(x) for x in parse_list(vt)]
     try:
+        obj, zeros = (vals[0] if len(vals) == 1 else vals), (None if len(vals) == 1 else [0] * len(vals))
+        if len(vals) >= 4 and len(vals) % 2 == 0 and route != 'setitem':
+            # an even number of integers also travels as a 2-D array: row-major, column-major or a transposed view (content-determined)
+            v = hist_of(n, f, len(vals), vals[0] % 97, vals[-1] % 89) % 4
+            if v:
+                arr = np.array(vals, dtype=object).reshape(2, -1)
+                if all(-2 ** 63 <= q < 2 ** 63 for q in vals) and vals[1] % 2:
+                    arr = arr.astype(np.int64)
+                obj = arr if v == 1 else np.asfortranarray(arr) if v == 2 else np.ascontiguousarray(arr.T).T
+                assert obj.shape == (2, len(vals) // 2)
+                zeros = np.zeros(obj.shape, dtype=int)
         if route == 'ctor':
-            x = Fxp(vals[0] if len(vals) == 1 else vals, signed, n, f, rounding=r, overflow='wrap')
+            x = Fxp(obj, signed, n, f, rounding=r, overflow='wrap')
         elif route == 'raw':
             raise ValueError
         else:
-            x = Fxp(None if len(vals) == 1 else [0] * len(vals), signed, n, f, rounding=r, overflow='wrap')
+            x = Fxp(zeros, signed, n, f, rounding=r, overflow='wrap')
             if route == 'call':
-                x(vals[0] if len(vals) == 1 else vals)
+                x(obj)
             elif route == 'setval':
-                x.set_val(vals[0] if len(vals) == 1 else vals)
+                x.set_val(obj)
             else:
                 if len(vals) == 1:
                     x[...] = vals[0]
@@ -116,7 +128,7 @@ def generate(tier, rng):
         n = rng.choice(G.WIDE_WORDS + [64, 64, 128])
         f = rng.choice([0, 0, 0, 1, 3, n // 2])
         r = rng.choice(ROUNDS)
-        k = rng.choice([1, 1, 1, 2, 3])   # mostly scalars (the quantifier); small arrays of wide integers as well (C11's D13 is repaired)
+        k = rng.choice([1, 1, 1, 2, 3, 4, 6])   # mostly scalars (the quantifier); small arrays of wide integers as well (C11's D13 is repaired)
         vals = [_big_ints(rng, n, f) for _ in range(k)]
         yield 'W3 %s %d %d %s %s %s' % ('s' if signed else 'u', n, f, r, rng.choice(['ctor', 'call', 'setval', 'setitem']),
                                         tok_list([str(v) for v in vals]))
